@@ -495,6 +495,9 @@ class Generator(AbstractODSGenerator):
 
     def __generate_asset(self, computed_data: ComputedData, output_file: Any, summary_row_index: int) -> int:
         asset: str = computed_data.asset
+        # Transactions are compared by internal id (spreadsheet row), which is unique only inside one asset's sheet: start each asset with an
+        # empty transaction-to-row table, otherwise a transaction hidden by the time filters is linked to another asset's row with the same id
+        self.__in_out_sheet_transaction_2_row = {}
         transaction_sheet_name: str = self.get_in_out_sheet_name(asset)
         output_sheet_name: str = self.get_tax_sheet_name(asset)
 
